@@ -7,7 +7,7 @@ import (
 	"strings"
 )
 
-var stringToNoteRegex = regexp.MustCompile(`^(?P<pitch>[a-zA-Z]#?)(?P<octave>-?\d)$`)
+var stringToNoteRegex = regexp.MustCompile(`^(?P<pitch>[a-zA-Z]#?)(?P<octave>-[1-9]|\d)$`)
 
 func StringToNote(note string) (byte, error) {
 	match := stringToNoteRegex.FindStringSubmatch(note)
